@@ -666,6 +666,40 @@ pub fn c11(seed: u64, budget: u64) -> FOut {
             }
         }
     }
+    // forgetting: the forget-timer of exactly the recorded Down identity removes the record in every connection
+    // state (connected, idle, defunct, resumed), the timer of another generation of that address does not
+    for state in 0..4u8 {
+        for exact in [true, false] {
+            let cfg = big_cfg();
+            let mut a = Inst::new(own, &cfg, seed ^ (0xF0 + state as u64), 0, 255);
+            let x = VId::new(1, 1, 0, 0);
+            let mut ups = vec![MMember { id: x, inc: 2, state: 2 }];
+            if state != 1 {
+                ups.push(MMember { id: other, inc: 0, state: 0 });
+            }
+            run_real(&mut a.foca, &Input::ApplyMany(ups, false));
+            if state >= 2 {
+                run_real(&mut a.foca, &Input::Leave);
+            }
+            if state == 3 {
+                run_real(&mut a.foca, &Input::ReuseDown);
+            }
+            let pre = a.snapshot();
+            let t = if exact { x } else { VId::new(1, 0, 0, 0) };
+            let (effs, o) = run_real(&mut a.foca, &Input::Timer(MTimer::RemoveDown(t)));
+            let post = a.snapshot();
+            out.runs += 1;
+            out.distinct.insert(hash_of(&("forget", state, exact)));
+            let still = post.members.iter().any(|m| m.id.a == 1);
+            let what = ["connected", "idle", "defunct (after leave_cluster)", "resumed by reuse_down_identity"][state as usize];
+            if exact && (still || o != Outcome::Done) {
+                out.hit("C11:forget-timer-ineffective", J::s(format!("instance {what} (conn {}): RemoveDown({x:?}) -> {o:?}, record still there: {:?}", pre.conn, post.members)));
+            }
+            if !exact && (!still || !effs.is_empty()) {
+                out.hit("C11:forget-timer-of-another-identity-has-effect", J::s(format!("instance {what}: RemoveDown({t:?}) with {x:?} recorded: {:?} {effs:?}", post.members)));
+            }
+        }
+    }
     // Down is final until forgotten
     for h in 0..budget {
         let mut down: std::collections::HashMap<VId, ()> = Default::default();
@@ -692,6 +726,12 @@ pub fn c11(seed: u64, budget: u64) -> FOut {
                 }
                 if now.is_none() && !matches!(input, Input::Timer(MTimer::RemoveDown(i)) if *i == id) {
                     bad = Some(J::obj(vec![("removed_without_forget_timer", J::s(format!("{id:?}"))), ("input", J::s(format!("{input:?}")))]));
+                }
+            }
+            // ... and the forget-timer of exactly the recorded Down identity does remove it, whatever the connection state
+            if let Input::Timer(MTimer::RemoveDown(i)) = input {
+                if pre.members.iter().any(|m| m.id == *i && m.state == 2) && post.members.iter().any(|m| m.id == *i) {
+                    bad = Some(J::obj(vec![("forget_timer_did_not_remove", J::s(format!("{i:?}"))), ("conn", J::n(pre.conn))]));
                 }
             }
             bad.is_none()
@@ -1273,6 +1313,9 @@ pub fn c14(seed: u64, budget: u64) -> FOut {
         let mut bad: Option<J> = None;
         let warm = g.below(n as u64 + 1);
         let total = warm + 20 * n as u64;
+        // a third of the layouts: the runtime loses some SendIndirectProbe timers - the next round then starts on
+        // the recovery path (it reports IncompleteProbeCycle) and must still ping the next member in turn
+        let lossy = g.chance(33);
         for round in 0..total {
             if round == warm && late > 0 {
                 run_real(&mut inst.foca, &Input::ApplyMany(later.to_vec(), false));
@@ -1308,6 +1351,9 @@ pub fn c14(seed: u64, budget: u64) -> FOut {
             }
             for e in &effs {
                 if let Eff::Submit(MTimer::Indirect(i, k), _) = e {
+                    if lossy && g.chance(45) {
+                        continue;
+                    }
                     run_real(&mut inst.foca, &Input::Timer(MTimer::Indirect(*i, *k)));
                 }
             }
@@ -1459,6 +1505,50 @@ pub fn c07(seed: u64, budget: u64) -> FOut {
 pub fn c10(seed: u64, budget: u64) -> FOut {
     let mut out = FOut::default();
     out.rule = "seeded histories (300 calls) over incarnations {0,1,2,2^15 boundary,MAX-1,MAX,random}, suspicions older/equal/newer than the own incarnation, the four renew kinds (none / bump / same / losing); monitors after every call: a new identity starts at incarnation 0, the own incarnation never decreases while the identity is kept (except reuse_down_identity), grows only when the input carried Suspect(self, i >= own) and then exceeds i, every header carries the current identity with an incarnation between the values before and after the call, no update ever leaves with an incarnation above the highest one told for that identity (0 for locally created Down records), and learning Down(self) (update, TurnUndead, Suspect at MAX) ends in a renewed winning identity with Rejoin or in Defunct - never still connected under the dead identity. distinct = histories with at least one self-suspicion and one Down(self)".into();
+    // learning Down(self) in every connection state a live instance can be in: fresh (the very first datagram),
+    // idle again, connected; by a Down update, a TurnUndead, a suspicion at the maximum incarnation
+    for state in 0..3u8 {
+        for how in 0..3u8 {
+            let own = VId::new(9, 3, 1, 0);
+            let peer = VId::new(2, 0, 0, 0);
+            let cfg = big_cfg();
+            let mut a = Inst::new(own, &cfg, seed ^ (state as u64 * 7 + how as u64), 0, 255);
+            match state {
+                0 => {}
+                1 => {
+                    // connected once, idle again
+                    run_real(&mut a.foca, &Input::ApplyMany(vec![MMember { id: VId::new(3, 0, 0, 0), inc: 0, state: 0 }], false));
+                    run_real(&mut a.foca, &Input::ApplyMany(vec![MMember { id: VId::new(3, 0, 0, 0), inc: 0, state: 2 }], false));
+                }
+                _ => {
+                    run_real(&mut a.foca, &Input::ApplyMany(vec![MMember { id: peer, inc: 0, state: 0 }, MMember { id: VId::new(3, 0, 0, 0), inc: 0, state: 0 }], false));
+                }
+            }
+            let pre = a.snapshot();
+            let input = match how {
+                0 => Input::Data(mk_dgram_ups(peer, 0, own, foca::Message::Gossip, &[MMember { id: own, inc: 0, state: 2 }])),
+                1 => Input::Data(mk_dgram(peer, 0, own, foca::Message::TurnUndead)),
+                _ => Input::Data(mk_dgram_ups(peer, 0, own, foca::Message::Gossip, &[MMember { id: own, inc: 65535, state: 1 }])),
+            };
+            let (effs, o) = run_real(&mut a.foca, &input);
+            let post = a.snapshot();
+            out.runs += 1;
+            out.distinct.insert(hash_of(&("down-self", state, how)));
+            use foca::Identity;
+            let renewed = post.identity != own && post.identity.win_addr_conflict(&own) && post.incarnation == 0 && effs.iter().any(|e| matches!(e, Eff::Notify(MNote::Rejoin(_))));
+            let is_down_old = |d: &[u8]| dec_member(&mut &d[..]).map(|m| *m.id() == own && m.state() == foca::State::Down).unwrap_or(false);
+            let pending = post.updates.iter().any(|(_, _, d)| is_down_old(d));
+            let carried = effs.iter().any(|e| matches!(e, Eff::Send(_, b) if split_datagram(b).map(|(_, ups, _)| ups.iter().any(|u| is_down_old(u))).unwrap_or(false)));
+            if o != Outcome::Done || !renewed || !(pending || carried) {
+                out.hit(
+                    "C10:renewal-incomplete",
+                    J::s(format!("instance in connection state {} (scenario {state}) learns it is down by {}: outcome {o:?}, identity {:?} -> {:?} inc {}, Rejoin notified={}, Down(old identity) pending={pending} carried={carried}",
+                        pre.conn, ["a Down update", "TurnUndead", "a suspicion at the maximum incarnation"][how as usize], own, post.identity, post.incarnation,
+                        effs.iter().any(|e| matches!(e, Eff::Notify(MNote::Rejoin(_)))))),
+                );
+            }
+        }
+    }
     for h in 0..budget {
         let hs = seed.wrapping_mul(2750159).wrapping_add(h);
         let mut told: BTreeMap<VId, u16> = BTreeMap::new();
@@ -1596,6 +1686,19 @@ pub fn c10(seed: u64, budget: u64) -> FOut {
                 let defunct = post.conn == 2 && (effs.contains(&Eff::Notify(MNote::Defunct)) || pre.conn == 2);
                 if !(renewed || defunct) && matches!(o, Outcome::Done) {
                     hits.push(("C10:carries-on-under-dead-identity".into(), ctx("Down(self)")));
+                }
+                // ... gossiping the old identity as Down: after a single renewal, with no other news about the
+                // own address in the same input, Down(old identity) is pending in the backlog or was carried by
+                // a datagram of this very call
+                let single = pre.identity.renew() == Some(post.identity);
+                let other_own = all_updates.iter().any(|m| m.id.a == pre.identity.a && m.id != pre.identity);
+                if renewed && single && !other_own && pre.conn != 2 && matches!(o, Outcome::Done) {
+                    let is_down_old = |d: &[u8]| dec_member(&mut &d[..]).map(|m| *m.id() == pre.identity && m.state() == foca::State::Down).unwrap_or(false);
+                    let pending = post.updates.iter().any(|(_, _, d)| is_down_old(d));
+                    let carried = effs.iter().any(|e| matches!(e, Eff::Send(_, b) if split_datagram(b).map(|(_, ups, _)| ups.iter().any(|u| is_down_old(u))).unwrap_or(false)));
+                    if !pending && !carried {
+                        hits.push(("C10:old-identity-not-gossiped-as-down".into(), ctx(&format!("renewed while conn={} but Down(old identity) is neither pending nor sent;", pre.conn))));
+                    }
                 }
             }
             hits.is_empty()
@@ -1745,6 +1848,33 @@ pub fn c15(seed: u64, budget: u64) -> FOut {
             for a in gone {
                 hits.push(("C15:entry-left-early".into(), ctx(&format!("address {a} left with {} transmissions to go", ledger[&a].1))));
                 ledger.remove(&a);
+            }
+            // (g) news about the own address (the previous identity declared Down by leave_cluster / change_identity,
+            // a stale identity of the own address stored Down) is accepted like any other: counted from max_transmissions
+            if *o == Outcome::Done {
+                let own_a = pre.identity.a as u128;
+                let ap = *appeared.get(&own_a).unwrap_or(&0);
+                let expect: Option<VId> = match input {
+                    Input::Leave => Some(pre.identity),
+                    Input::ChangeIdentity(n) if pre.conn != 2 && *n != pre.identity => Some(pre.identity),
+                    Input::Data(_) | Input::ApplyMany(_, true) if pre.identity == post.identity => {
+                        let was = pre.members.iter().find(|m| m.id.a == pre.identity.a);
+                        match post.members.iter().find(|m| m.id.a == pre.identity.a) {
+                            Some(m) if Some(m) != was && m.state == 2 => Some(m.id),
+                            _ => None,
+                        }
+                    }
+                    _ => None,
+                };
+                if let Some(x) = expect {
+                    let ok = match post.updates.iter().find(|u| u.1 == own_a) {
+                        Some((tx, _, d)) => dec_member(&mut &d[..]).map(|m| *m.id() == x && m.state() == foca::State::Down).unwrap_or(false) && *tx + ap >= maxtx,
+                        None => ap >= maxtx,
+                    };
+                    if !ok {
+                        hits.push(("C15:accepted-own-address-update-did-not-restart".into(), ctx(&format!("Down({x:?}) accepted in this call, {ap} appearances since, max_transmissions {maxtx}"))));
+                    }
+                }
             }
             // (f) no broadcast
             if let Input::ApplyMany(l, false) = input {
@@ -1969,6 +2099,15 @@ fn mk_dgram(src: VId, inc: u16, dst: VId, m: foca::Message<VId>) -> Vec<u8> {
     b
 }
 
+fn mk_dgram_ups(src: VId, inc: u16, dst: VId, m: foca::Message<VId>, ups: &[MMember]) -> Vec<u8> {
+    let mut b = header_bytes(&foca::Header { src, src_incarnation: inc, dst, message: m });
+    b.extend([(ups.len() >> 8) as u8, ups.len() as u8]);
+    for u in ups {
+        b.extend(member_bytes(&u.to_member()));
+    }
+    b
+}
+
 /// C12: probe evidence and indirect routing
 pub fn c12(seed: u64, budget: u64) -> FOut {
     use foca::Message as Mg;
@@ -2042,6 +2181,67 @@ pub fn c12(seed: u64, budget: u64) -> FOut {
                         J::s(format!("fan-out {fan}, genuine Ack({k}) from {t:?}, then a stray Ack {} {} the indirect stage: PingReq sent={sent_req} target suspected={suspected} timeout scheduled={timeout}",
                             if stray_from_target { "with the previous number from the target" } else { "with the current number from another member" },
                             if stray_after_indirect { "after" } else { "before" })),
+                    );
+                }
+            }
+        }
+    }
+    // aborted rounds: the identity changes (manually, or by renewal after Down(self) / TurnUndead) or the instance
+    // goes idle while a round is open, before or after its indirect stage; once connected again the first round
+    // of the new epoch must start cleanly: no error, no suspicion, no suspicion timeout
+    for how in 0..4u8 {
+        for after_indirect in [false, true] {
+            for fan in 1..=2u128 {
+                let a_id = VId::new(50, 1, 1, 0);
+                let mut cfg = big_cfg();
+                cfg.num_indirect_probes = fan;
+                let mut a = Inst::new(a_id, &cfg, seed ^ (0xAB0 + how as u64), 0, 255);
+                let members: Vec<MMember> = (1..=3u16).map(|i| MMember { id: VId::new(i, 0, 0, 0), inc: 0, state: 0 }).collect();
+                run_real(&mut a.foca, &Input::ApplyMany(members.clone(), false));
+                let tok = a.snapshot().token;
+                let (e, _) = run_real(&mut a.foca, &Input::Timer(MTimer::Probe(tok)));
+                let target = e.iter().find_map(|x| if let Eff::Send(d, b) = x { hdr_of(b).and_then(|h| if let Mg::Ping(_) = h.message { Some(*d) } else { None }) } else { None });
+                let ind = e.iter().find_map(|x| if let Eff::Submit(t @ MTimer::Indirect(..), _) = x { Some(t.clone()) } else { None });
+                let (Some(target), Some(ind)) = (target, ind) else { continue };
+                if after_indirect {
+                    run_real(&mut a.foca, &Input::Timer(ind));
+                }
+                let helper = members.iter().map(|m| m.id).find(|i| *i != target).unwrap();
+                let what = match how {
+                    0 => {
+                        run_real(&mut a.foca, &Input::ChangeIdentity(VId { g: a_id.g + 5, ..a_id }));
+                        "change_identity"
+                    }
+                    1 => {
+                        run_real(&mut a.foca, &Input::Data(mk_dgram_ups(helper, 0, a_id, Mg::Gossip, &[MMember { id: a_id, inc: 0, state: 2 }])));
+                        "renewal after a Down update about itself"
+                    }
+                    2 => {
+                        run_real(&mut a.foca, &Input::Data(mk_dgram(helper, 0, a_id, Mg::TurnUndead)));
+                        "renewal after TurnUndead"
+                    }
+                    _ => {
+                        run_real(&mut a.foca, &Input::ApplyMany(members.iter().map(|m| MMember { state: 2, ..*m }).collect(), false));
+                        "going idle (every member Down)"
+                    }
+                };
+                // connected again: a new member is learnt (identity changes keep the member list)
+                run_real(&mut a.foca, &Input::ApplyMany(vec![MMember { id: VId::new(7, 0, 0, 0), inc: 0, state: 0 }], false));
+                let s1 = a.snapshot();
+                out.runs += 1;
+                out.distinct.insert(hash_of(&("aborted", how, after_indirect, fan)));
+                if s1.conn != 1 {
+                    out.hit("C12:not-connected-after-abort", J::s(format!("{what}: connection state {} with members {:?}", s1.conn, s1.members)));
+                    continue;
+                }
+                let (e3, o3) = run_real(&mut a.foca, &Input::Timer(MTimer::Probe(s1.token)));
+                let s2 = a.snapshot();
+                let newly_suspect: Vec<VId> = s2.members.iter().filter(|m| m.state == 1 && s1.members.iter().any(|x| x.id == m.id && x.state == 0)).map(|m| m.id).collect();
+                let timeouts = e3.iter().filter(|x| matches!(x, Eff::Submit(MTimer::SuspectToDown(..), _))).count();
+                if o3 != Outcome::Done || !newly_suspect.is_empty() || timeouts > 0 {
+                    out.hit(
+                        "C12:aborted-round-not-abandoned",
+                        J::s(format!("round with target {target:?} aborted {} its indirect stage by {what}; first round afterwards: {o3:?}, newly Suspect {newly_suspect:?}, suspicion timeouts scheduled {timeouts}", if after_indirect { "after" } else { "before" })),
                     );
                 }
             }
